@@ -267,7 +267,7 @@ def mon_C04(s):
                 out.append(V("offer after terminal status %s: %s" % (term, bad or [o["id"] for o in r["res"]]), i))
         if op["op"] == "report" and raised(r):
             out.append(V("late report raised %s in terminal status %s" % (raised(r), term), i,
-                         "D5b" if raised(r) == "KeyError" and has_count_join_below_all(s) else None))
+                         "D5b" if raised(r) in ("KeyError", "TypeError", "IndexError") and has_count_join_below_all(s) else None))
     return out
 
 
@@ -330,8 +330,10 @@ def mon_C11(s):
             out.append(V("expression error escaped %s" % op["op"], i))
         elif x and op["op"] in ("next", "report", "render") and x not in ("InvalidTask", "InvalidTaskStateEntry"):
             fin = None
-            if x == "KeyError" and has_count_join_below_all(s):
+            if x in ("KeyError", "TypeError", "IndexError") and has_count_join_below_all(s):
                 fin = "D5b"
+            if x == "AttributeError" and op["op"] == "rerun":
+                fin = "D14"
             out.append(V("%s escaped %s" % (x, op["op"]), i, fin))
         if st is not None and prev is not None:
             new = [e for e in st["errors"] if e not in prev["errors"] and e[0] == "ExpressionEvaluationException"]
@@ -466,9 +468,8 @@ def mon_C07(s):
                             in_loop = True
                 has_retry = t.get("retry") is not None or any("retry" in tr["do"] for tr in t["next"])
                 if starts[k] > 1 and not in_loop and not has_retry:
-                    below = isinstance(t["join"], int) and t["join"] < len(inbound_sources(s, op["task"]))
                     out.append(V("join %s started %d times on route %s" % (op["task"], starts[k], op["route"]), i,
-                                 "D2" if below else None))
+                                 "D2" if has_count_join_below_all(s) else None))
         if st["status"] == "succeeded" and not had_rerun(s, i):
             for x in st["staged"]:
                 t = td.get(x["id"])
@@ -537,10 +538,12 @@ def mon_C15(s):
         x = raised(r)
         if x in INTERNAL:
             fin = None
-            if x == "KeyError" and has_count_join_below_all(s):
+            if x in ("KeyError", "TypeError", "IndexError") and has_count_join_below_all(s):
                 fin = "D5b"
             if x == "AttributeError" and op["op"] == "rerun":
                 fin = "D14"
+            if fin is None and op["op"] == "report" and op["task"] in CMDS:
+                fin = "D19"
             out.append(V("internal error %s escaped %s" % (x, op["op"]), i, fin))
     return out
 
